@@ -1,11 +1,14 @@
 """C16 - component assets = own class plus the bases selected by Media.extend.
 
-Model: coq/Media/Model.v   Theorems: coq/Props/C16.v
-Correspondence: class hierarchies (<= 4 user classes in quick, <= 6 in thorough: chains, multiple and diamond
-inheritance, plain mixins, inconsistent MROs, no / empty Media, str / list / dict forms, extend True / False / list,
-Media files that exist beside the component module) x access histories of .media / .template / .js / .css /
-*_file on classes and instances.  Every history runs on FRESH class objects (media_cache is keyed by class), the
-observed results are compared with the model inside Coq, and independent Python oracles check the statement.
+Model: coq/Media/Model.v (+ Names.v)   Theorems: coq/Props/C16.v   Source anchors: harness/gen_c16.py -> coq/Gen/C16.v,
+coq/Media/Anchors.v.
+Correspondence: class hierarchies of 1-6 user classes (chains, multiple and diamond inheritance, plain mixins with Media and
+with template/js/css members, inconsistent MROs, no / empty Media, every str / bytes / list / tuple / dict form of Media.js /
+Media.css INCLUDING the empty ones, duplicate entries, extend True / False / list, Media files that exist beside the
+component module, classes whose asset file is missing) x access histories of .media / .template / .js / .css / *_file on
+classes and instances.  Every history runs on FRESH class objects (media_cache is keyed by class); the observed results are
+compared with the model inside Coq (which receives the Media forms AS WRITTEN and normalises them itself), and independent
+Python oracles check the statement directly.
 """
 import itertools
 import json
@@ -18,16 +21,20 @@ import common as C
 from common import cN, cnat, clist, copt, cbool
 
 IMPORTS = "From DJC Require Import Lib.Base Media.Model."
+CASE_TYPE = "list (cls * option rawmedia) * list access * list N * outcome"
 CORPUS = os.path.join(C.VERIF, "corpus", "C16")
 COMPS = os.path.join(C.WORK, "C16", "comps")
 
-KEYS = ["js", "all", "print"]            # key 0 = js, key k>0 = css medium
+KEYS = ["js", "all", "print"]            # key 0 = js, key k>0 = css medium (key 1 = "all" = Model.css_all)
 NBUILTIN = 3                             # table index 0 = object, 1 = typing.Generic, 2 = Component
 REL_FILE = 1                             # file code that exists beside the module of "rel" classes
 REL_OFF = 100                            # code of the component-relative form of a file
+MISSING = 9                              # asset file code that does not exist (template_file / js_file / css_file)
 PAIRS = ["template", "js", "css"]
 T_FLATTEN = "c16-per-level-flattening-order"
 T_RELPATH = "c16-media-before-resolve-relative-path"
+T_EMPTY = "c16-empty-css-list"
+T_MIXIN = "c16-plain-mixin-pair-ignored"
 
 
 # ---------------------------------------------------------------------------------------------
@@ -50,11 +57,8 @@ def vstr(code):                       # inline attribute values; code 0 is the e
     return "" if code == 0 else "v%d" % code
 
 
-def apath(pair, code):                # path of an asset file (exists in COMPS root); content = "content-<pair>-<code>"
+def apath(pair, code):                # path of an asset file (exists in COMPS root unless code == MISSING)
     return "%s%d.%s" % (pair[0], code, {"template": "html", "js": "js", "css": "css"}[pair])
-
-
-VAL_CODES = {}
 
 
 def vcode(s):
@@ -87,36 +91,123 @@ def setup_files():
 # ---------------------------------------------------------------------------------------------
 # a table = list of user class specs (index i <-> table index NBUILTIN + i)
 #   spec = {"bases": [table indices], "comp": bool, "rel": bool,
-#           "media": None | {"extend": True|False|[table indices], "files": {key: [codes]}, "form": int},
+#           "media": None | {"extend": True|False|[table indices], "files": {key: [codes]},
+#                            optional "raw": {"js": [kind, codes], "css": [kind, payload]}   (the forms as written)
+#                            optional "force": {"js": kind, "css": kind}},
 #           "pairs": {pair: (inline_code|None, file_code|None)}}
+#   raw kinds: "absent" | "none" | "str" | "bytes" | "list" | "tuple" (payload = codes; empty codes with str/bytes = "" / b"")
+#              css also "dict" (payload = {key: [vkind, codes]}, vkind in str|bytes|list|tuple)
 # ---------------------------------------------------------------------------------------------
-def media_class(spec, classes, form):
+def choose_raw(spec, form):
+    """The way the Media of this class is WRITTEN for this run (deterministic in (spec, form))."""
+    m = spec["media"]
+    if "raw" in m:
+        return {"js": list(m["raw"]["js"]), "css": list(m["raw"]["css"])}
+    files, comp, force = m["files"], spec["comp"], m.get("force", {})
+    # js
+    if 0 not in files:
+        js = ["none" if (comp and form % 5 == 4) else "absent", []]
+    else:
+        l = list(files[0])
+        if "js" in force:
+            kind = force["js"]
+        elif not comp:
+            kind = "list"
+        elif len(l) == 1 and form % 2 == 1:
+            kind = "str" if form % 4 == 1 else "bytes"
+        elif len(l) == 0:
+            kind = ["list", "str", "tuple", "bytes", "list"][form % 5]
+        else:
+            kind = "tuple" if form % 7 == 3 else "list"
+        js = [kind, l]
+    # css
+    ks = sorted(k for k in files if k > 0)
+    if not ks:
+        css = ["dict", {}] if form % 5 == 1 else ["none" if (comp and form % 5 == 3) else "absent", []]
+    else:
+        only_all = ks == [1]
+        l = list(files[1]) if only_all else None
+        if "css" in force:
+            kind = force["css"]
+        elif not comp:
+            kind = "dict"
+        elif only_all and form % 3 == 1:
+            if len(l) == 1 and form % 2 == 1:
+                kind = "str" if form % 4 == 1 else "bytes"
+            elif len(l) == 0:
+                kind = ["list", "str", "tuple", "bytes"][(form // 3) % 4]        # the EMPTY forms of the quantifier
+            else:
+                kind = "tuple" if form % 5 == 2 else "list"
+        else:
+            kind = "dict"
+        if kind == "dict":
+            d = {}
+            for k in ks:
+                v = list(files[k])
+                if comp and len(v) == 1 and form % 3 == 2:
+                    d[k] = ["str" if (form + k) % 2 == 0 else "bytes", v]
+                else:
+                    d[k] = ["tuple" if (comp and (form + k) % 5 == 4) else "list", v]
+            css = ["dict", d]
+        else:
+            css = [kind, l]
+    return {"js": js, "css": css}
+
+
+def norm_raw(raw):
+    """What the raw forms declare, per the statement (independent of the Coq model): key -> list of codes."""
+    out = {}
+    kind, l = raw["js"]
+    if kind not in ("absent", "none"):
+        out[0] = list(l)
+    kind, p = raw["css"]
+    if kind == "dict":
+        for k, (vk, l) in p.items():
+            out[int(k)] = list(l)
+    elif kind not in ("absent", "none"):
+        out[1] = list(p)
+    return out
+
+
+def is_empty_css_form(raw):
+    kind, p = raw["css"]
+    return kind in ("str", "bytes", "list", "tuple") and not p
+
+
+def mk_val(kind, codes, key):
+    names = [fname(c, key) for c in codes]
+    if kind == "str":
+        return names[0] if names else ""
+    if kind == "bytes":
+        return names[0].encode() if names else b""
+    return list(names) if kind == "list" else tuple(names)
+
+
+def media_class(spec, classes, raw):
     m = spec["media"]
     attrs = {}
     if m["extend"] is not True:
         attrs["extend"] = m["extend"] if m["extend"] is False else [classes[b] for b in m["extend"]]
-    files = m["files"]
-    comp = spec["comp"]
-    if 0 in files:
-        names = [fname(c, 0) for c in files[0]]
-        if comp and len(names) == 1 and form % 2 == 1:
-            attrs["js"] = names[0] if form % 4 == 1 else names[0].encode()
-        else:
-            attrs["js"] = names
-    css = {KEYS[k]: [fname(c, k) for c in files[k]] for k in files if k > 0}
-    if css:
-        # NB: an EMPTY list form (`css = []`) is not normalised by the implementation and makes `.media` raise
-        # AttributeError inside django.forms.Media; kept out of the generated domain (reported as an observation).
-        if comp and list(css) == ["all"] and css["all"] and form % 3 == 1:
-            attrs["css"] = css["all"][0] if (len(css["all"]) == 1 and form % 2 == 1) else css["all"]
-        elif comp and form % 3 == 2:
-            attrs["css"] = {k: (v[0] if len(v) == 1 else v) for k, v in css.items()}
-        else:
-            attrs["css"] = css
+    kind, l = raw["js"]
+    if kind == "none":
+        attrs["js"] = None
+    elif kind != "absent":
+        attrs["js"] = mk_val(kind, l, 0)
+    kind, p = raw["css"]
+    if kind == "none":
+        attrs["css"] = None
+    elif kind == "dict":
+        attrs["css"] = {KEYS[int(k)]: mk_val(vk, v, int(k)) for k, (vk, v) in p.items()}
+    elif kind != "absent":
+        attrs["css"] = mk_val(kind, p, 1)
     return type("Media", (), attrs)
 
 
-def build(table, form=0):
+def raws_for(table, form):
+    return [choose_raw(s, form + i) if s["media"] is not None else None for i, s in enumerate(table)]
+
+
+def build(table, raws):
     """Create the classes.  Returns (classes, None) or (classes_so_far, (index, exception class name))."""
     from django_components import Component
     import typing
@@ -124,7 +215,7 @@ def build(table, form=0):
     for i, spec in enumerate(table):
         attrs = {"__module__": "verif_c16_rel" if spec["rel"] else "verif_c16_plain"}
         if spec["media"] is not None:
-            attrs["Media"] = media_class(spec, classes, form + i)
+            attrs["Media"] = media_class(spec, classes, raws[i])
         for pair, (inl, fil) in spec["pairs"].items():
             if inl is not None:
                 attrs[pair] = vstr(inl)
@@ -138,18 +229,17 @@ def build(table, form=0):
     return classes, None
 
 
-def run_history(table, hist, form=0):
-    """hist: list of (table index, attr, on_instance).  Fresh classes; returns (outcome, warned)."""
-    from django.forms.widgets import MediaOrderConflictWarning
-    with warnings.catch_warnings(record=True) as w:
-        warnings.simplefilter("always")
-        classes, err = build(table, form)
+def run_history(table, hist, raws):
+    """hist: list of (table index, attr, on_instance).  Fresh classes; returns outcome."""
+    with warnings.catch_warnings():
+        warnings.simplefilter("ignore")
+        classes, err = build(table, raws)
         if err is not None:
-            return ("create_error", err[0], err[1]), False
+            return ("create_error", err[0], err[1])
         outs = []
         for (ci, attr, inst) in hist:
-            target = classes[ci]() if inst else classes[ci]
             try:
+                target = classes[ci]() if inst else classes[ci]
                 if attr == "media":
                     m = target.media
                     d = {0: [fcode(x) for x in m._js]}
@@ -161,8 +251,7 @@ def run_history(table, hist, form=0):
                     outs.append(("attr", vcode(v)))
             except Exception as e:  # noqa
                 outs.append(("err", type(e).__name__))
-        warned = any(issubclass(x.category, MediaOrderConflictWarning) for x in w)
-    return ("ok", outs), warned
+    return ("ok", outs)
 
 
 # ---------------------------------------------------------------------------------------------
@@ -197,8 +286,13 @@ def declared(ft, c, k):
     return list(m["files"].get(k, [])) if m else []
 
 
+def squash(l):
+    return [x for i, x in enumerate(l) if i == 0 or l[i - 1] != x]
+
+
 def consistent(lists):
-    """all lists are subsequences of one duplicate-free list <=> each duplicate-free and union of chains acyclic"""
+    """all lists (adjacent repeats squashed) are subsequences of one duplicate-free list
+       <=> each squashed list duplicate-free and the union of the chains acyclic"""
     succ, nodes = {}, set()
     for l in lists:
         if len(set(l)) != len(l):
@@ -223,30 +317,51 @@ def is_subseq(l, o):
     return all(x in it for x in l)
 
 
+_MRO = {}
+
+
 def py_mro(ft, c):
     """C3 via Python itself on plain replica classes; None = TypeError."""
-    try:
-        cl = []
-        for i, s in enumerate(ft[:c + 1]):
-            cl.append(object if i == 0 else type("R%d" % i, tuple(cl[b] for b in s["bases"]), {}))
-        return [cl.index(x) for x in cl[c].__mro__]
-    except TypeError:
-        return None
+    key = (tuple(tuple(s["bases"]) for s in ft[:c + 1]), c)
+    if key not in _MRO:
+        try:
+            cl = []
+            for i, s in enumerate(ft[:c + 1]):
+                cl.append(object if i == 0 else type("R%d" % i, tuple(cl[b] for b in s["bases"]), {}))
+            _MRO[key] = [cl.index(x) for x in cl[c].__mro__]
+        except TypeError:
+            _MRO[key] = None
+    return _MRO[key]
 
 
-def expected_attr(ft, c, attr):
+def is_broken(s):
+    return s["comp"] and any(f == MISSING for (_, f) in s["pairs"].values())
+
+
+UNRESOLVABLE = "unresolvable"
+
+
+def expected_attr(ft, c, attr, literal):
+    """(value, may_raise).  literal: any class of the MRO may define the pair; else component classes only.
+    may_raise: a class with a missing asset file has to be resolved on the way (the access raises ValueError now; a value
+    is accepted only if it is the right one: `value` is computed as if nothing raised, UNRESOLVABLE if it would be the
+    content of the missing file)."""
     pair, fm = (attr[:-5], True) if attr.endswith("_file") else (attr, False)
+    may_raise = False
     for b in py_mro(ft, c):
         s = ft[b]
-        if not s["comp"]:
+        may_raise = may_raise or is_broken(s)
+        if not s["comp"] and not literal:
             continue
         inl, fil = s["pairs"].get(pair, (None, None))
         if inl is None and fil is None:
             continue
         if fm:
-            return None if fil is None else 80 + fil
-        return (50 + PAIRS.index(pair) * 10 + fil) if fil is not None else inl
-    return None
+            return (None if fil is None else 80 + fil), may_raise
+        if fil == MISSING:
+            return UNRESOLVABLE, may_raise
+        return ((50 + PAIRS.index(pair) * 10 + fil) if fil is not None else inl), may_raise
+    return None, may_raise
 
 
 def expected_create_error(ft):
@@ -262,52 +377,95 @@ def has_rel(table):
     return any(s["rel"] and s["media"] and any(REL_FILE in l for l in s["media"]["files"].values()) for s in table)
 
 
-def oracle(chk, table, hist, outcome, warned, seen):
-    """Direct property predicates on one observed history.  `seen`: (class, attr) -> first observed result."""
+def decl_lists(ft, contrib, k):
+    # a file declared by a component class whose module has that file beside it appears in its component-relative
+    # form (the class is resolved before its Media is read, whatever was accessed first)
+    return [[x + REL_OFF if (x == REL_FILE and ft[d]["rel"] and ft[d]["comp"]) else x for x in declared(ft, d, k)]
+            for d in contrib]
+
+
+def flatten_sensitive(ft, c, k):
+    """INPUT predicate of the fixed defect 488c746: would merging level by level (flattening the result after every
+    base, as the code did) break one of the declared lists of this hierarchy?  Pure function of the table."""
+    from django.forms.widgets import Media
+
+    def merge(lists):
+        with warnings.catch_warnings():
+            warnings.simplefilter("ignore")
+            return Media.merge(*lists)
+
+    def flat(x):
+        lists = [decl_lists(ft, [x], k)[0]]
+        for b in selected(ft[x]):
+            bl = flat(b)
+            if bl and bl not in lists:
+                lists.append(bl)
+            lists = [merge(lists)]
+        return merge(lists)
+    got = flat(c)
+    return any(not is_subseq(squash(l), got) for l in decl_lists(ft, contributors(ft, c), k))
+
+
+def oracle(chk, table, raws, hist, outcome, seen):
+    """Direct property predicates on one observed history.  `seen`: (class, attr) -> first observed result.
+    Returns the list of positions of `hist` that raised where raising is legitimate (missing asset file)."""
     ft = full_table(table)
-    rep = {"table": table, "history": hist, "observed": outcome}
+    rep = {"table": table, "raw": raws, "history": hist, "observed": outcome}
     exp_err = expected_create_error(ft)
     if outcome[0] == "create_error":
         if exp_err != (outcome[1], outcome[2]):
             chk.fail("c16-class-creation", "class creation raised %s for class %d; the statement demands %r" % (outcome[2], outcome[1], exp_err), rep)
-        return
+        return []
     if exp_err is not None:
         chk.fail("c16-both-members-accepted" if exp_err[1] == "ImproperlyConfigured" else "c16-class-creation",
                  "class %d defines both members of a pair (or has no MRO) but was created" % exp_err[0], rep)
-        return
-    for (ci, attr, inst), o in zip(hist, outcome[1]):
-        if o[0] == "err":
-            chk.fail("c16-access-raises", "access %s on class %d raised %s" % (attr, ci, o[1]), rep)
-            continue
+        return []
+    empties = [NBUILTIN + i for i, r in enumerate(raws) if r is not None and table[i]["comp"] and is_empty_css_form(r)]
+    legit = []
+    for pos, ((ci, attr, inst), o) in enumerate(zip(hist, outcome[1])):
         key = (ci, attr)
+        contrib = contributors(ft, ci) if attr == "media" else None
+        if attr == "media":
+            may_raise = any(is_broken(ft[d]) for d in contrib)
+        else:
+            exp_lit, may_raise = expected_attr(ft, ci, attr, True)
+            exp_comp, _ = expected_attr(ft, ci, attr, False)
         canon = json.dumps(o, sort_keys=True)
+        if o[0] == "err":
+            if may_raise and o[1] == "ValueError":
+                legit.append(pos)        # an asset file of a class that has to be resolved does not exist
+            else:
+                trig = T_EMPTY if (attr == "media" and any(d in empties for d in contrib)) else "c16-access-raises"
+                chk.fail(trig, "access %s on class %d raised %s" % (attr, ci, o[1]), rep)
+                continue
         if key in seen and seen[key][0] != canon:
             chk.fail(T_RELPATH if has_rel(table) else "c16-access-order-dependence",
                      "result of %s on class %d depends on the access history: %s vs %s" % (attr, ci, seen[key][0], canon),
-                     dict(rep, other_history=seen[key][1]))
-        seen.setdefault(key, (canon, hist))
-        if attr != "media":
-            exp = expected_attr(ft, ci, attr)
-            if o[1] != exp:
-                chk.fail("c16-attr-nearest-pair", "%s of class %d is %r, nearest defining class says %r" % (attr, ci, o[1], exp), rep)
+                     dict(rep, other_history=seen[key][1], other_raw=seen[key][2]))
+        seen.setdefault(key, (canon, hist, raws))
+        if o[0] == "err":
             continue
-        contrib = contributors(ft, ci)
+        if attr != "media":
+            if o[1] != exp_lit:
+                chk.fail(T_MIXIN if exp_lit != exp_comp else "c16-attr-nearest-pair",
+                         "%s of class %d is %r, the nearest class of the MRO defining either member says %r" % (attr, ci, o[1], exp_lit), rep)
+            continue
         for k in range(len(KEYS)):
             got = o[1].get(k, o[1].get(str(k), []))
-            # a file declared by a component class whose module has that file beside it appears in its
-            # component-relative form (the class is resolved before its Media is read, whatever was accessed first)
-            lists = [[x + REL_OFF if (x == REL_FILE and ft[d]["rel"] and ft[d]["comp"]) else x for x in declared(ft, d, k)]
-                     for d in contrib]
+            lists = decl_lists(ft, contrib, k)
             want = set(x for l in lists for x in l)
             if set(got) != want or len(set(got)) != len(got):
                 chk.fail("c16-file-set", "files of class %d (%s) are %r, declared by own class + selected bases: %r" % (ci, KEYS[k], got, sorted(want)), rep)
-            elif consistent(lists):
-                for d, l in zip(contrib, lists):
-                    if not is_subseq(l, got):
-                        chk.fail(T_FLATTEN if warned else "c16-order",
-                                 "declared lists %r are mutually consistent but the result %r of class %d (%s) breaks the order %r declared by class %d"
-                                 % ([x for x in lists if x], got, ci, KEYS[k], l, d), rep)
-                        break
+            else:
+                sq = [squash(l) for l in lists]
+                if consistent(sq):
+                    for d, l in zip(contrib, sq):
+                        if not is_subseq(l, got):
+                            chk.fail(T_FLATTEN if flatten_sensitive(ft, ci, k) else "c16-order",
+                                     "declared lists %r are mutually consistent but the result %r of class %d (%s) breaks the order %r declared by class %d"
+                                     % ([x for x in lists if x], got, ci, KEYS[k], l, d), rep)
+                            break
+    return legit
 
 
 # ---------------------------------------------------------------------------------------------
@@ -318,17 +476,35 @@ def pair_term(pair, p):
     return "(%s, %s)" % (copt(inl, cN), copt(fil, lambda f: "(%s, %s)" % (cN(80 + f), cN(50 + PAIRS.index(pair) * 10 + f))))
 
 
-def cls_term(s):
-    m = s["media"]
-    if m is None:
-        mt = "None"
+def rawfiles_term(kind, codes):
+    if kind in ("absent", "none"):
+        return "RAbsent"
+    if kind in ("str", "bytes"):
+        return "(RStr %s)" % copt(codes[0] if codes else None, cN)
+    return "(RList %s)" % clist([cN(c) for c in codes])
+
+
+def raw_term(spec, raw):
+    if raw is None:
+        return "None"
+    e = spec["media"]["extend"]
+    et = "ExtAll" if e is True else "ExtNone" if e is False else "(ExtList %s)" % clist([cnat(b) for b in e])
+    kind, p = raw["css"]
+    if kind == "dict":
+        items = []
+        for k, (vk, v) in sorted((int(k), x) for k, x in p.items()):
+            items.append("(%s, %s)" % (cN(k), ("DStr %s" % cN(v[0])) if vk in ("str", "bytes") else ("DList %s" % clist([cN(c) for c in v]))))
+        css = "(CDict %s)" % clist(items)
     else:
-        e = m["extend"]
-        et = "ExtAll" if e is True else "ExtNone" if e is False else "(ExtList %s)" % clist([cnat(b) for b in e])
-        mt = "(Some (MDecl %s %s))" % (et, clist(["(%s, %s)" % (cN(k), clist([cN(c) for c in l])) for k, l in sorted(m["files"].items())]))
+        css = "(CFiles %s)" % rawfiles_term(kind, p)
+    return "(Some (RawMedia %s %s %s))" % (et, rawfiles_term(*raw["js"]), css)
+
+
+def cls_term(s, raw):
     rel = "[(%s, %s)]" % (cN(REL_FILE), cN(REL_FILE + REL_OFF)) if (s["rel"] and s["comp"]) else "[]"
     ps = [pair_term(p, s["pairs"].get(p, (None, None))) for p in PAIRS]
-    return "(Cls %s %s %s %s %s %s %s)" % (clist([cnat(b) for b in s["bases"]]), cbool(s["comp"]), mt, rel, ps[0], ps[1], ps[2])
+    return "(Cls %s %s None %s %s %s %s, %s)" % (clist([cnat(b) for b in s["bases"]]), cbool(s["comp"]), rel, ps[0], ps[1], ps[2],
+                                                 raw_term(s, raw))
 
 
 def access_term(a):
@@ -339,14 +515,16 @@ def access_term(a):
     return "AAttr %s %s %s" % (cnat(ci), {"template": "PTpl", "js": "PJs", "css": "PCss"}[pair], cbool(fm))
 
 
-def outcome_term(outcome):
+def outcome_term(outcome, skip=()):
     if outcome[0] == "create_error":
         e = {"TypeError": "ETypeError", "ImproperlyConfigured": "EImproperlyConfigured"}.get(outcome[2])
         if e is None:
             return None
         return "(OCreateError %s %s)" % (cnat(outcome[1]), e)
     obs = []
-    for o in outcome[1]:
+    for pos, o in enumerate(outcome[1]):
+        if pos in skip:
+            continue
         if o[0] == "media":
             obs.append("OMedia %s" % clist(["(%s, %s)" % (cN(int(k)), clist([cN(c) for c in l])) for k, l in sorted(o[1].items())]))
         elif o[0] == "attr":
@@ -356,11 +534,16 @@ def outcome_term(outcome):
     return "(OOk %s)" % clist(obs)
 
 
-def case_term(table, hist, outcome):
-    ot = outcome_term(outcome)
+def case_term(table, raws, hist, outcome, skip=()):
+    """`skip`: positions whose access legitimately raised (missing asset file).  They are left out on both sides: by
+    access_order_independent the model's other results do not depend on them, the implementation's must not either."""
+    ot = outcome_term(outcome, skip)
     if ot is None:
         return None
-    return "(%s, %s, %s, %s)" % (clist([cls_term(s) for s in full_table(table)]), clist([access_term(a) for a in hist]),
+    ft = full_table(table)
+    fr = [None] * NBUILTIN + list(raws)
+    return "(%s, %s, %s, %s)" % (clist([cls_term(s, r) for s, r in zip(ft, fr)]),
+                                 clist([access_term(a) for pos, a in enumerate(hist) if pos not in skip]),
                                  clist([cN(k) for k in range(len(KEYS))]), ot)
 
 
@@ -380,17 +563,29 @@ def md(extend=True, js=None, **css):
     return {"extend": extend, "files": files}
 
 
+def md_raw(js, css, extend=True):
+    raw = {"js": list(js), "css": list(css)}
+    return {"extend": extend, "files": norm_raw(raw), "raw": raw}
+
+
 # witnesses of the defects (fixed and open) live in corpus/C16/*.json; a few more regression cases here
 CORPUS_LITERAL = [
     ("both-members", [mk([2], pairs={"js": (1, 1)})], []),
     ("pair-nearest", [mk([2], pairs={"js": (1, None), "css": (None, 1)}), mk([3], pairs={"js": (None, 2), "css": (0, None)}), mk([4])],
      [(5, "js", False), (5, "js_file", False), (5, "css", True), (5, "css_file", False), (3, "css", False)]),
+    # duplicates: adjacent repeats keep the order theorem; a distant repeat falls back to first occurrences
+    ("dups-adjacent", [mk([2], md(True, [1, 1, 2])), mk([3], md(True, [2, 2, 3]))], [(4, "media", False), (3, "media", False)]),
+    ("dups-distant", [mk([2], md(True, [1, 2, 1])), mk([3], md(True, [3, 1]))], [(4, "media", False), (3, "media", True)]),
+    # a class whose template file is missing: every access that has to resolve it raises, nothing else is disturbed
+    ("missing-file", [mk([2], md(True, [1])), mk([2], md(True, [2]), pairs={"template": (None, MISSING)}), mk([3, 4], md(True, [3])),
+                      mk([3], md(True, [4]))],
+     [(5, "media", False), (3, "media", False), (5, "media", True), (6, "media", False), (5, "template", False), (3, "template", False),
+      (4, "js", False), (5, "media", False)]),
 ]
 
 
 def shapes(n):
     """All base-list choices for n user classes: each class takes 1..2 bases among Component + earlier user classes."""
-    # build front to back
     def rec2(i, acc):
         if i == n:
             yield list(acc)
@@ -405,11 +600,13 @@ def shapes(n):
 JS_LISTS = [[], [1], [2], [1, 2], [2, 1]]
 
 
-def rand_list(rng, universe, maxlen=3, dup=0.05):
+def rand_list(rng, universe, maxlen=3, dup=0.08):
     n = rng.choice([0, 1, 1, 2, 2, 3][:maxlen + 3])
     l = rng.sample(universe, min(n, len(universe)))
     if l and rng.random() < dup:
-        l.insert(rng.randrange(len(l) + 1), rng.choice(l))
+        i = rng.randrange(len(l))
+        # half of the repeats adjacent (harmless), half anywhere
+        l.insert(i if rng.random() < 0.5 else rng.randrange(len(l) + 1), l[i])
     return l
 
 
@@ -439,7 +636,7 @@ def rand_media(rng, idx, universe, p_none=0.25):
     return {"extend": ext, "files": files}
 
 
-def rand_pairs(rng):
+def rand_pairs(rng, both=True):
     ps = {}
     for p in PAIRS:
         r = rng.random()
@@ -447,19 +644,21 @@ def rand_pairs(rng):
             continue
         if r < 0.78:
             ps[p] = (rng.choice([0, 1, 2, 3]), None)
-        elif r < 0.97:
+        elif r < 0.97 or not both:
             ps[p] = (None, rng.choice([1, 2]))
         else:
             ps[p] = (rng.choice([0, 1]), rng.choice([1, 2]))
     return ps
 
 
-def rand_table(rng, n, universe, rel_p=0.0, mixin_p=0.1, attrs=True):
+def rand_table(rng, n, universe, rel_p=0.0, mixin_p=0.1, attrs=True, mixin_pairs=0.0):
     table = []
     for i in range(n):
         idx = NBUILTIN + i
         if rng.random() < mixin_p:
-            table.append(mk([0], rand_media(rng, idx, universe, 0.3), comp=False))
+            # plain mixin: Media in Django's own normal form; template/js/css members only in the mixin-pair family
+            table.append(mk([0], rand_media(rng, idx, universe, 0.3), comp=False,
+                            pairs=rand_pairs(rng, both=False) if rng.random() < mixin_pairs else {}))
             continue
         cands = [2] + list(range(NBUILTIN, idx))
         nb = rng.choice([1, 1, 1, 2, 2, 3])
@@ -473,12 +672,51 @@ def rand_table(rng, n, universe, rel_p=0.0, mixin_p=0.1, attrs=True):
     return table
 
 
+def has_diamond(table):
+    ft = full_table(table)
+
+    def anc(c):
+        out, todo = set(), list(ft[c]["bases"])
+        while todo:
+            x = todo.pop()
+            if x not in out:
+                out.add(x)
+                todo.extend(ft[x]["bases"])
+        return out
+    for c in range(NBUILTIN, len(ft)):
+        bs = ft[c]["bases"]
+        for a, b in itertools.combinations(bs, 2):
+            if (({a} | anc(a)) & ({b} | anc(b))) - {0, 1, 2}:
+                return True
+    return False
+
+
+# stacked / nested diamonds of 5 and 6 user classes (table indices; 2 = Component)
+DIAMONDS = [
+    [[2], [3], [3], [4, 5], [6]],                       # A; B(A); C(A); D(B,C); E(D)
+    [[2], [3], [3], [3], [4, 5, 6]],                    # triple diamond
+    [[2], [2], [3, 4], [3, 4], [5, 6]],                 # two roots, two joins, join of joins
+    [[2], [3], [3], [4, 5], [4, 5], [6, 7]],            # double diamond
+    [[2], [3], [3], [4, 5], [6], [6, 7]],               # diamond, then F(D, E) with E(D)
+    [[2], [3], [4], [3], [5, 6], [7, 3]],               # long arm / short arm + redundant base
+    [[2], [3], [3], [4], [5], [6, 7]],                  # wide diamond with arms of length 2
+]
+
 ATTRS = ["template", "template_file", "js", "js_file", "css", "css_file"]
+FIRST = ["media", "template", "js", "css"]
+
+
+def comp_idx(table):
+    return [NBUILTIN + i for i in range(len(table)) if table[i]["comp"]] or [2]
+
+
+def readout(table, inst=False):
+    return [(c, a, inst) for c in comp_idx(table) for a in FIRST]
 
 
 def histories(rng, table, nrand, exhaustive_media=False):
     n = len(table)
-    idx = [NBUILTIN + i for i in range(n) if table[i]["comp"]] or [2]
+    idx = comp_idx(table)
     hs = [[(c, "media", False) for c in idx], [(c, "media", False) for c in reversed(idx)]]
     if exhaustive_media:
         hs = [[(c, "media", False) for c in p] for p in itertools.permutations(idx)]
@@ -494,17 +732,84 @@ def histories(rng, table, nrand, exhaustive_media=False):
     return hs
 
 
+def order_histories(table):
+    """ALL access orders for <= 3 classes: every permutation of the classes x every way of touching each class first
+    (.media / .template / .js / .css) x class or instance (full product for n <= 2, alternating patterns for n = 3),
+    each followed by reading everything again.  For n = 1 all permutations of the 4 accesses; for n = 2 also every
+    sequence of <= 3 accesses over the 8 (class, attribute) pairs."""
+    idx = comp_idx(table)
+    n = len(idx)
+    tail = readout(table)
+    hs = []
+    cnt = 0
+    for perm in itertools.permutations(idx):
+        for attrs in itertools.product(FIRST, repeat=n):
+            cnt += 1
+            flags = list(itertools.product([False, True], repeat=n)) if n <= 2 else [tuple((i + cnt) % 2 == 1 for i in range(n))]
+            for fl in flags:
+                hs.append([(c, a, f) for c, a, f in zip(perm, attrs, fl)] + tail)
+    if n == 1:
+        for p in itertools.permutations(FIRST):
+            for inst in (False, True):
+                hs.append([(idx[0], a, inst) for a in p] + tail)
+    if n == 2:
+        alpha = [(c, a) for c in idx for a in FIRST]
+        for L in (1, 2, 3):
+            for seq in itertools.product(alpha, repeat=L):
+                hs.append([(c, a, (i + L) % 2 == 1) for i, (c, a) in enumerate(seq)] + tail)
+    return hs
+
+
+def rich_table(rng, sh):
+    """Contents for the access-order family: results sensitive to every part of the state (relative files, extend modes,
+    pairs at several levels, css in two media)."""
+    t = []
+    for i, b in enumerate(sh):
+        idx = NBUILTIN + i
+        e = rng.random()
+        ext = True if (e < 0.6 or i == 0) else (False if e < 0.75 else rng.sample(list(range(NBUILTIN, idx)), rng.randint(1, min(2, i))))
+        m = {"extend": ext, "files": {0: rand_list(rng, [1, 2, 3], dup=0.0), 1: rand_list(rng, [1, 2, 3], dup=0.0)}}
+        if rng.random() < 0.3:
+            m["files"][2] = rand_list(rng, [1, 2], dup=0.0)
+        if rng.random() < 0.12:
+            m = None
+        ps = {}
+        for p in PAIRS:
+            r = rng.random()
+            if r < 0.35:
+                ps[p] = (rng.choice([0, 1, 2, 3]), None)
+            elif r < 0.6:
+                ps[p] = (None, rng.choice([1, 2]))
+        t.append(mk(b, m, rel=rng.random() < 0.5, pairs=ps))
+    return t
+
+
+JS_FORMS = [["absent", []], ["none", []], ["str", []], ["bytes", []], ["list", []], ["tuple", []],
+            ["str", [1]], ["bytes", [2]], ["list", [1]], ["list", [2, 1]], ["tuple", [1, 2]]]
+CSS_FORMS = [["absent", []], ["none", []], ["str", []], ["bytes", []], ["list", []], ["tuple", []],
+             ["str", [1]], ["bytes", [2]], ["list", [1]], ["list", [2, 1]], ["tuple", [1, 2]],
+             ["dict", {}], ["dict", {1: ["str", [1]]}], ["dict", {1: ["list", [1, 2]], 2: ["bytes", [2]]}],
+             ["dict", {1: ["list", []]}], ["dict", {2: ["tuple", [2, 1]], 1: ["list", []]}]]
+
+
 def gen_tables(chk, thorough):
+    """yields (table, kind, history mode)"""
     rng = chk.rng
-    # 1. every shape of <= 3 user classes, js lists over two files exhaustively on the three classes, extend=True
+    # 1. every shape of <= 3 user classes, js lists over two files exhaustively on the three classes, extend=True,
+    #    every order of the .media accesses
     for n in (1, 2, 3):
         for sh in shapes(n):
             combos = list(itertools.product(JS_LISTS, repeat=n))
             if n == 3 and not thorough:
                 combos = rng.sample(combos, 40)
             for ls in combos:
-                yield [mk(b, md(True, l)) for b, l in zip(sh, ls)], "exh-shape%d" % n, True
-    # 2. every shape of 3 classes x extend modes of the last two classes, files random over 3 names
+                yield [mk(b, md(True, l)) for b, l in zip(sh, ls)], "exh-shape%d" % n, "media-perms"
+    # 2. ALL access orders on every shape of <= 3 classes
+    for n in (1, 2, 3):
+        for sh in shapes(n):
+            for _ in range((4 if n < 3 else 3) if thorough else (2 if n < 3 else 1)):
+                yield rich_table(rng, sh), "orders%d" % n, "all-orders"
+    # 3. every shape of 3 classes x extend modes of the last two classes, files random over 3 names
     exts = [True, False, "list"]
     for sh in shapes(3):
         for e1, e2 in itertools.product(exts, repeat=2):
@@ -518,18 +823,48 @@ def gen_tables(chk, thorough):
                     if rng.random() < 0.15:
                         m = None
                     t.append(mk(b, m))
-                yield t, "exh-extend3", False
-    # 3. shapes of 4 classes (sampled in quick), random lists
-    sh4 = list(shapes(4))
-    for sh in (sh4 if thorough else rng.sample(sh4, 150)):
-        yield [mk(b, rand_media(rng, NBUILTIN + i, [1, 2, 3], 0.2)) for i, b in enumerate(sh)], "shape4", False
-    # 4. random tables: mixins, attrs, dup entries, relative files
-    for _ in range(6000 if thorough else 700):
-        n = rng.choice([2, 3, 3, 4, 4] + ([5, 6] if thorough else [5]))
-        yield rand_table(rng, n, rng.choice([[1, 2], [1, 2, 3], [1, 2, 3, 4]])), "random%d" % n, False
+                yield t, "exh-extend3", "std"
+    # 4. every shape of 4 classes, random lists
+    for sh in shapes(4):
+        for _ in range(3 if thorough else 1):
+            yield [mk(b, rand_media(rng, NBUILTIN + i, [1, 2, 3], 0.2)) for i, b in enumerate(sh)], "shape4", "std"
+    # 5. every written form of Media.js x Media.css (incl. all the empty ones) on one class, and on a base of a chain
+    for jf in JS_FORMS:
+        for cf in CSS_FORMS:
+            yield [mk([2], md_raw(jf, cf))], "forms1", "media-perms"
+    for _ in range(1500 if thorough else 300):
+        n = rng.choice([2, 3])
+        sh = rng.choice(list(shapes(n)))
+        t = [mk(b, md_raw(rng.choice(JS_FORMS), rng.choice(CSS_FORMS), extend=rng.choice([True, True, False]))
+                if rng.random() < 0.85 else None) for b in sh]
+        yield t, "forms%d" % n, "media-perms"
+    # 6. random tables of 2-6 classes: mixins with Media, attrs, dup entries
+    for _ in range(6000 if thorough else 800):
+        n = rng.choice([2, 3, 3, 4, 4, 5, 5, 6, 6] if thorough else [2, 3, 3, 4, 4, 5, 6])
+        t = rand_table(rng, n, rng.choice([[1, 2], [1, 2, 3], [1, 2, 3, 4]]))
+        yield t, "random%d%s" % (n, "-diamond" if has_diamond(t) else ""), "std"
+    # 7. stacked diamonds of 5 and 6 classes
+    for _ in range(60 if thorough else 12):
+        for sh in DIAMONDS:
+            t = [mk(b, rand_media(rng, NBUILTIN + i, [1, 2, 3, 4], 0.15), pairs=rand_pairs(rng) if rng.random() < 0.4 else {})
+                 for i, b in enumerate(sh)]
+            yield t, "diamond%d" % len(sh), "std"
+    # 8. Media files lying beside the component module
     for _ in range(1500 if thorough else 250):
         n = rng.choice([1, 2, 3, 4])
-        yield rand_table(rng, n, [1, 2, 3], rel_p=0.6), "random-relfiles", False
+        yield rand_table(rng, n, [1, 2, 3], rel_p=0.6), "random-relfiles", "std"
+    # 9. plain mixins that define template / js / css members
+    for _ in range(1200 if thorough else 200):
+        n = rng.choice([2, 3, 3, 4, 5])
+        yield rand_table(rng, n, [1, 2, 3], mixin_p=0.35, mixin_pairs=0.8), "mixin-pairs", "std"
+    # 10. a class whose asset file is missing (resolving it raises): the rest of the hierarchy must not be disturbed
+    for _ in range(1200 if thorough else 200):
+        n = rng.choice([2, 3, 3, 4, 5])
+        t = rand_table(rng, n, [1, 2, 3], mixin_p=0.05)
+        comps = [s for s in t if s["comp"] and not any(a is not None and b is not None for a, b in s["pairs"].values())]
+        if comps:
+            rng.choice(comps)["pairs"][rng.choice(PAIRS)] = (None, MISSING)
+        yield t, "missing-file", "std3"
 
 
 # ---------------------------------------------------------------------------------------------
@@ -549,6 +884,8 @@ def fix_table(table):
     for s in table:
         if s.get("media"):
             s["media"]["files"] = {int(k): v for k, v in s["media"]["files"].items()}
+            if "raw" in s["media"] and s["media"]["raw"]["css"][0] == "dict":
+                s["media"]["raw"]["css"][1] = {int(k): v for k, v in s["media"]["raw"]["css"][1].items()}
         s["pairs"] = {p: tuple(v) for p, v in s.get("pairs", {}).items()}
     return table
 
@@ -565,65 +902,89 @@ def nontrivial(table, outcome):
 def run(tier, seed):
     import djsetup
     djsetup.setup()
+    import gen_constants
+    gen_constants.generate(["C16"])
     setup_files()
     chk = C.Check("C16", tier, seed)
     chk.prove()
     thorough = tier == "thorough"
     terms, cases = [], []
+    stats = {"raised_missing_file": 0, "empty_css_forms": 0, "plain_definer_tables": 0, "dup_tables": 0}
 
     def one_table(table, kind, hs):
         seen = {}
+        ft = full_table(table)
+        if any(not s["comp"] and s["pairs"] for s in table):
+            stats["plain_definer_tables"] += 1
+        if any(s["media"] and any(len(set(l)) != len(l) for l in s["media"]["files"].values()) for s in table):
+            stats["dup_tables"] += 1
+        nt0 = nontrivial(table, None)
+        tj = json.dumps(table, sort_keys=True)
         for hi, h in enumerate(hs):
-            outcome, warned = run_history(table, h, form=hi + len(table))
-            oracle(chk, table, h, outcome, warned, seen)
-            nt = outcome[0] == "ok" and nontrivial(table, outcome)
-            chk.count((json.dumps(table, sort_keys=True), tuple(h)), nt, kind=kind,
-                      sample={"table": table, "history": h, "observed": outcome} if (nt and kind.startswith("random") and len(table) >= 3) else None)
-            t = case_term(table, h, outcome)
+            raws = raws_for(table, hi + len(table))
+            stats["empty_css_forms"] += sum(1 for i, r in enumerate(raws) if r is not None and table[i]["comp"] and is_empty_css_form(r))
+            outcome = run_history(table, h, raws)
+            legit = oracle(chk, table, raws, h, outcome, seen)
+            stats["raised_missing_file"] += len(legit)
+            nt = outcome[0] == "ok" and nt0
+            chk.count((tj, hi, tuple(h)), nt, kind=kind,
+                      sample={"table": table, "raw": raws, "history": h, "observed": outcome} if (nt and kind.startswith("random") and len(table) >= 3) else None)
+            t = case_term(table, raws, h, outcome, legit)
             if t is not None:
                 terms.append(t)
-                cases.append({"table": table, "history": h, "observed": outcome})
+                cases.append({"table": table, "raw": raws, "history": h, "observed": outcome, "skipped_positions": legit})
             if outcome[0] == "create_error":
                 break
 
     with djsetup.components_settings(dirs=[COMPS]):
         for name, table, hs in load_corpus():
             one_table(fix_table(table), "corpus", hs)
-        for table, kind, exh in gen_tables(chk, thorough):
+        for table, kind, mode in gen_tables(chk, thorough):
             n = len(table)
-            hs = histories(chk.rng, table, 1 if kind.startswith("exh") else 2, exhaustive_media=exh and n <= 3 and (thorough or n <= 2))
+            if mode == "all-orders":
+                hs = order_histories(table)
+            elif mode == "media-perms":
+                hs = histories(chk.rng, table, 1, exhaustive_media=n <= 3)
+            else:
+                hs = histories(chk.rng, table, 3 if mode == "std3" else 2)
             one_table(table, kind, hs)
-    # check_media = the model variant describing /repo now (current_flatten = false, current_eager = true in Media/Model.v).
-    # VERIF_C16_VARIANT="<flatten>,<eager>" (e.g. "true,false" = the code before a5a18f6/488c746) is only for experiments
-    # on a scratch copy; the registered check never sets it.
-    variant = os.environ.get("VERIF_C16_VARIANT")
-    check_fn = "check_media" if not variant else "check_variant %s %s" % tuple(variant.split(","))
-    bad = C.coq_eval_cases("C16", "media", IMPORTS, "list cls * list access * list N * outcome", check_fn, terms, shard=1500)
+    bad = C.coq_eval_cases("C16", "media", IMPORTS, CASE_TYPE, "check_raw", terms, shard=350)
     for i in bad[:20]:
         chk.disagree("Media model != implementation", cases[i])
         if os.environ.get("VERIF_DEBUG"):
             print("DISAGREE", json.dumps(cases[i]))
             print("   term:", terms[i])
+    chk.extra["c16_counts"] = dict(stats, coq_compared=len(terms))
     chk.assumptions = [
         "classes are created after their bases and after the classes named in Media.extend (Python guarantees it)",
-        "Media entries are plain path strings (str / bytes / list / dict forms are normalised by the implementation itself); "
-        "SafeString / callable / PathLike entries and a Media class inheriting from another Media class are outside the model",
+        "Media entries are plain path strings written as str / bytes / list / tuple / dict (all forms incl. the empty ones are generated and "
+        "normalised by the MODEL from the form as written); SafeString / callable / PathLike entries, a dict value that is the empty string, "
+        "and a Media class inheriting from another Media class are outside the model; plain (non-component) classes write Media in Django's "
+        "own normal form (js list, css dict of lists) - the library does not normalise them",
         "Media / template / js / css are not reassigned after class creation; single-threaded use",
         "django.forms.Media.merge, graphlib.TopologicalSorter and Python's C3 linearisation are modelled (differentially tested here), not verified",
+        "a class whose template_file / js_file / css_file does not exist: accesses that must resolve it raise ValueError (accepted; they are left "
+        "out of the model comparison), every other access must be unaffected; plain classes defining BOTH members of a pair are not generated",
     ]
     return chk.finish(
-        rule="every inheritance shape of <= 3 user classes (1-2 bases each, incl. inconsistent MROs) x js lists over 2 files (exhaustive; n=3 sampled in quick) "
-             "x %s media access orders; every 3-class shape x extend in {True, False, list}^2; %s 4-class shapes; seeded random tables of 2-%d classes "
-             "(mixins, no/empty Media, str/bytes/list/dict forms, duplicate entries, extend lists, template/js/css and *_file pairs incl. both-members, "
-             "Media files lying beside the component module) x random histories of .media/.template/.js/.css/*_file on classes and instances. "
-             "Each history runs on fresh class objects. Non-trivial = some class receives files from >= 2 classes with a non-empty own Media. "
-             "Distinct = distinct (table, history)." % ("all" if thorough else "all (n<=2) / forward+reverse", "all" if thorough else "150 sampled", 6 if thorough else 5),
-        explanation="theorems of Props/C16.v re-checked by coqc; model (work-stack + memo + Media.__add__/merge/graphlib + C3 + pair rule) evaluated by vm_compute "
-                    "inside Coq on every history and compared with the observed _js/_css/attribute values/creation errors; independent Python oracles: file set = "
-                    "own + selected bases, no duplicates, order consistent with every declared list when those are mutually consistent, results independent of "
-                    "the access history, attribute from the nearest defining pair in Python's own MRO, both members rejected.",
+        rule="every inheritance shape of <= 3 user classes (1-2 bases each, incl. inconsistent MROs) x js lists over 2 files (exhaustive; n=3 %s) "
+             "x ALL orders of the .media accesses; on every such shape %s tables with rich contents x ALL access orders (every permutation of the classes x "
+             "first touch through .media/.template/.js/.css x class/instance, then everything read again; n=1 all 4! orders, n=2 every sequence of <= 3 accesses); "
+             "every 3-class shape x extend in {True, False, list}^2; ALL 273 4-class shapes; every written form of Media.js x Media.css (11 x 16, incl. '' b'' [] () None {}) on one class "
+             "+ random 2-3 class tables over those forms; seeded random tables of 2-6 classes (mixins with Media, no/empty Media, duplicate entries adjacent and distant, "
+             "extend lists, template/js/css and *_file pairs incl. both-members); 7 stacked-diamond shapes of 5-6 classes; Media files lying beside the component module; "
+             "plain mixins defining template/js/css; classes with a missing asset file. Each history runs on fresh class objects. "
+             "Non-trivial = some class receives files from >= 2 classes with a non-empty own Media. Distinct = distinct (table, history, written forms)."
+             % ("all" if thorough else "40 sampled per shape", "3-4" if thorough else "1-2"),
+        explanation="theorems of Props/C16.v re-checked by coqc (incl. the source anchors of Media/Anchors.v against the regenerated Gen/C16.v); model (normalisation of the "
+                    "written Media forms + work-stack + memo + Media.__add__/merge/graphlib + C3 + pair rule) evaluated by vm_compute inside Coq on every history and "
+                    "compared with the observed _js/_css/attribute values/creation errors; independent Python oracles: file set = own + selected bases, no duplicates, "
+                    "order consistent with every declared list (adjacent repeats squashed) when those are mutually consistent, results independent of the access history, "
+                    "attribute from the nearest class of Python's own MRO defining either member (ANY class, literal reading), both members rejected, no access raises "
+                    "unless an asset file is missing.",
         extra_trusted=["modelled, not verified: django.forms.widgets.Media (__add__, merge), graphlib.TopologicalSorter.static_order, type.__new__ (C3 MRO), "
-                       "os.path.isfile-based resolution of component-relative paths (a per-class path map in the model)"])
+                       "os.path.isfile-based resolution of component-relative paths (a per-class path map in the model)",
+                       "harness/gen_c16.py (reads constants and the AST of component_media.py into coq/Gen/C16.v)"])
 
 
 def replay(path):
@@ -636,8 +997,12 @@ def replay(path):
     if "table" in case:
         table = fix_table(case["table"])
         with djsetup.components_settings(dirs=[COMPS]):
-            for key in ("history", "other_history"):
+            for key, rk in (("history", "raw"), ("other_history", "other_raw")):
                 if key in case:
                     h = [tuple(a) for a in case[key]]
-                    print(key, "->", run_history(table, h))
+                    raws = case.get(rk) or raws_for(table, len(table))
+                    for rw in raws:
+                        if rw is not None and rw["css"][0] == "dict":
+                            rw["css"][1] = {int(k): v for k, v in rw["css"][1].items()}
+                    print(key, "->", run_history(table, h, raws))
     return 0
